@@ -65,6 +65,7 @@ impl MetricSink for GatedSink {
         self.sh.finished.fetch_add(1, Ordering::SeqCst);
         match outcome.as_str() {
             "ok" => Ok(m.len()),
+            o if o.starts_with("ok:") => Ok(o[3..].parse::<usize>().unwrap_or(m.len())),
             "panic" => panic!("scripted panic of the wrapped sink"),
             other => {
                 let kind = crate::client::kind_from_name(other.strip_prefix("err:").unwrap_or("Other"));
@@ -126,6 +127,114 @@ fn probe(sc: &Value) -> Value {
                 let _ = tx.send("ok".to_string());
             }
             std::mem::forget(tx);
+        }
+        // racing producers: the capacity must hold for every interleaving of concurrent emits, not only sequentially
+        if viol.is_empty() {
+            let big = "x".repeat(256 * 1024);
+            'rounds: for round in 0..150 {
+                let sh = Arc::new(Shared { entered: Mutex::new(vec![]), finished: AtomicUsize::new(0), dropped: AtomicBool::new(false), outcomes: Mutex::new(vec![]) });
+                let (tx, rx) = channel::<String>();
+                let mut b = QueuingMetricSink::builder();
+                for step in sc["builder_order"].as_str().unwrap_or("ch").chars() {
+                    if step == 'c' {
+                        b = b.with_capacity(1);
+                    }
+                    if step == 'h' && sc["handler"].as_bool() == Some(true) {
+                        b = b.with_error_handler(|_e: io::Error| {});
+                    }
+                }
+                let q = b.build(GatedSink { sh: sh.clone(), gate: Mutex::new(rx) });
+                let _ = q.emit("first:1|c");
+                let _ = wait_until(|| sh.entered.lock().unwrap().len() >= 1, 1500);
+                let nthr = 6;
+                let oks = Arc::new(AtomicUsize::new(0));
+                let ready = Arc::new(AtomicUsize::new(0));
+                let go = Arc::new(AtomicBool::new(false));
+                let mut hs = vec![];
+                for _ in 0..nthr {
+                    let (q2, o2, r2, g2, m) = (q.clone(), oks.clone(), ready.clone(), go.clone(), big.clone());
+                    hs.push(std::thread::spawn(move || {
+                        r2.fetch_add(1, Ordering::SeqCst);
+                        while !g2.load(Ordering::Acquire) {
+                            std::hint::spin_loop();
+                        }
+                        if q2.emit(&m).is_ok() {
+                            o2.fetch_add(1, Ordering::SeqCst);
+                        }
+                    }));
+                }
+                while ready.load(Ordering::SeqCst) < nthr {
+                    std::thread::yield_now();
+                }
+                go.store(true, Ordering::Release);
+                for h in hs {
+                    let _ = h.join();
+                }
+                let n = oks.load(Ordering::SeqCst);
+                for _ in 0..(nthr + 4) {
+                    let _ = tx.send("ok".to_string());
+                }
+                std::mem::forget(tx);
+                if n > 1 {
+                    viol.push(json!({"prop": "C10", "clause": "channel-capacity", "detail": format!(
+                        "capacity 1, wrapped sink blocked, {} producers emitting at once: {} metrics were accepted (round {})", nthr, n, round)}));
+                    break 'rounds;
+                }
+            }
+        }
+    } else if kind == "queue-drop-calls-sink" {
+        // C09: dropping a handle never blocks and never panics, whatever the wrapped sink does - so it must not call into
+        // the wrapped sink on the dropping thread
+        struct Hostile {
+            mode: &'static str,
+            hold: Arc<AtomicBool>,
+        }
+        impl MetricSink for Hostile {
+            fn emit(&self, m: &str) -> io::Result<usize> {
+                Ok(m.len())
+            }
+            fn flush(&self) -> io::Result<()> {
+                if self.mode == "panic" {
+                    panic!("wrapped sink's flush panics");
+                }
+                let t = Instant::now();
+                while self.hold.load(Ordering::SeqCst) && t.elapsed() < Duration::from_secs(8) {
+                    std::thread::sleep(Duration::from_millis(5));
+                }
+                Ok(())
+            }
+            fn stats(&self) -> cadence::SinkStats {
+                if self.mode == "panic" {
+                    panic!("wrapped sink's stats panics");
+                }
+                cadence::SinkStats::default()
+            }
+        }
+        for mode in ["panic", "block"] {
+            for last in [true, false] {
+                let hold = Arc::new(AtomicBool::new(true));
+                let q = QueuingMetricSink::with_capacity(Hostile { mode, hold: hold.clone() }, 4);
+                let keep = if last { None } else { Some(q.clone()) };
+                let _ = q.emit("m:1|c");
+                let done = Arc::new(AtomicBool::new(false));
+                let d2 = done.clone();
+                let h = std::thread::spawn(move || {
+                    let r = std::panic::catch_unwind(std::panic::AssertUnwindSafe(move || drop(q)));
+                    d2.store(true, Ordering::SeqCst);
+                    r.is_ok()
+                });
+                let returned = wait_until(|| done.load(Ordering::SeqCst), 1500);
+                hold.store(false, Ordering::SeqCst);
+                let ok = h.join().unwrap_or(false);
+                if !returned {
+                    viol.push(json!({"prop": "C09", "clause": "drop-never-blocks", "detail": format!(
+                        "dropping {} handle did not return within 1.5 s while the wrapped sink's flush was blocked", if last { "the last" } else { "a" })}));
+                } else if !ok {
+                    viol.push(json!({"prop": "C09", "clause": "drop-never-panics", "detail": format!(
+                        "dropping {} handle panicked because the wrapped sink ({} mode) was called on the dropping thread", if last { "the last" } else { "a" }, mode)}));
+                }
+                let _ = std::panic::catch_unwind(std::panic::AssertUnwindSafe(move || drop(keep)));
+            }
         }
     } else if kind == "queue-blocking-emit" {
         // two producers race for the last slot of a bounded queue whose wrapped sink never returns
@@ -208,6 +317,108 @@ fn probe(sc: &Value) -> Value {
         let _ = producer.join();
         if let Some(d) = bad {
             viol.push(json!({"prop": "C15", "clause": "queued-in-range", "detail": d}));
+        }
+    } else if kind == "queue-second-consumer" {
+        // C12 through a queuing wrapper: while the worker holds m1 inside the (gated) wrapped sink and m2 is queued, no
+        // call on a handle may hand m2 to the wrapped sink from another thread (it would overtake m1)
+        for what in ["flush", "stats", "clone-drop", "emit"] {
+            let sh = Arc::new(Shared { entered: Mutex::new(vec![]), finished: AtomicUsize::new(0), dropped: AtomicBool::new(false), outcomes: Mutex::new(vec![]) });
+            let (tx, rx) = channel::<String>();
+            let q = QueuingMetricSink::with_capacity(GatedSink { sh: sh.clone(), gate: Mutex::new(rx) }, 8);
+            let _ = q.emit("m1:1|c");
+            let _ = wait_until(|| sh.entered.lock().unwrap().len() >= 1, 1500);
+            let _ = q.emit("m2:1|c");
+            let q2 = q.clone();
+            let w = what.to_string();
+            let h = std::thread::spawn(move || match w.as_str() {
+                "flush" => {
+                    let _ = q2.flush();
+                }
+                "stats" => {
+                    let _ = q2.stats();
+                }
+                "clone-drop" => drop(q2.clone()),
+                _ => {
+                    let _ = q2.emit("m3:1|c");
+                }
+            });
+            // give the call time to (wrongly) reach the wrapped sink
+            let overtook = wait_until(|| sh.entered.lock().unwrap().len() >= 2, 400);
+            if overtook && sh.finished.load(Ordering::SeqCst) == 0 {
+                viol.push(json!({"prop": "C12", "clause": "queue-single-consumer", "detail": format!(
+                    "{}() on a handle handed {:?} to the wrapped sink from the calling thread while the worker still held \"m1:1|c\" (order not preserved)",
+                    what, sh.entered.lock().unwrap().get(1))}));
+                viol.push(json!({"prop": "C08", "clause": "in-order-exactly-once", "detail": format!("{}() consumed the queue on the calling thread", what)}));
+                viol.push(json!({"prop": "C10", "clause": "wrapped-sink-on-caller-thread", "detail": format!("{}() ran the wrapped sink on the calling thread", what)}));
+            }
+            for _ in 0..6 {
+                let _ = tx.send("ok".to_string());
+            }
+            let _ = h.join();
+            std::mem::forget(tx);
+        }
+    } else if kind == "flush-delegation" {
+        // C06: flush() on the queuing sink (any queue state) and on a client is the wrapped sink's flush(), once, with
+        // its outcome
+        struct Flushy {
+            sh: Arc<Shared>,
+            gate: Mutex<Receiver<String>>,
+            flushes: Arc<AtomicUsize>,
+            fail: Arc<AtomicBool>,
+        }
+        impl MetricSink for Flushy {
+            fn emit(&self, m: &str) -> io::Result<usize> {
+                self.sh.entered.lock().unwrap().push(m.to_string());
+                let _ = self.gate.lock().unwrap().recv_timeout(Duration::from_secs(20));
+                self.sh.finished.fetch_add(1, Ordering::SeqCst);
+                Ok(m.len())
+            }
+            fn flush(&self) -> io::Result<()> {
+                self.flushes.fetch_add(1, Ordering::SeqCst);
+                if self.fail.load(Ordering::SeqCst) {
+                    Err(io::Error::new(io::ErrorKind::ConnectionRefused, "flush-refused"))
+                } else {
+                    Ok(())
+                }
+            }
+        }
+        for handler in [false, true] {
+            let sh = Arc::new(Shared { entered: Mutex::new(vec![]), finished: AtomicUsize::new(0), dropped: AtomicBool::new(false), outcomes: Mutex::new(vec![]) });
+            let (tx, rx) = channel::<String>();
+            let flushes = Arc::new(AtomicUsize::new(0));
+            let fail = Arc::new(AtomicBool::new(false));
+            let sink = Flushy { sh: sh.clone(), gate: Mutex::new(rx), flushes: flushes.clone(), fail: fail.clone() };
+            let mut b = QueuingMetricSink::builder().with_capacity(8);
+            if handler {
+                b = b.with_error_handler(|_e: io::Error| {});
+            }
+            let q = b.build(sink);
+            let mut expect = 0;
+            let mut check = |what: &str, r: io::Result<()>, want_ok: bool, viol: &mut Vec<Value>| {
+                expect += 1;
+                let n = flushes.load(Ordering::SeqCst);
+                if n != expect || r.is_ok() != want_ok {
+                    viol.push(json!({"prop": "C06", "clause": "queuing-flush-delegates", "detail": format!(
+                        "{} (handler configured: {}): flush returned {:?}, the wrapped sink's flush ran {} time(s) in total, expected {} and {}",
+                        what, handler, r.map_err(|e| e.to_string()), n, expect, if want_ok { "Ok" } else { "its Err" })}));
+                    expect = n;
+                }
+            };
+            check("empty queue", q.flush(), true, &mut viol);
+            let _ = q.emit("m1:1|c");
+            let _ = wait_until(|| sh.entered.lock().unwrap().len() >= 1, 1500);
+            let _ = q.emit("m2:1|c");
+            check("worker inside the wrapped sink, one more metric queued", q.flush(), true, &mut viol);
+            fail.store(true, Ordering::SeqCst);
+            check("wrapped flush fails", q.flush(), false, &mut viol);
+            fail.store(false, Ordering::SeqCst);
+            let client = cadence::StatsdClient::from_sink("p", q.clone());
+            let r = client.flush().map_err(|e| io::Error::new(io::ErrorKind::Other, e.to_string()));
+            check("through StatsdClient::flush", r, true, &mut viol);
+            for _ in 0..4 {
+                let _ = tx.send("ok".to_string());
+            }
+            std::mem::forget(tx);
         }
     } else if kind == "queue-stats" {
         struct Counting(AtomicUsize);
